@@ -319,6 +319,9 @@ T vertex_coloring_jones_plassmann(const I num_rows,
         K++;
     }
 
+    if(num_rows == 0)
+        return -1; // no vertices, no colors
+
     return *std::max_element(x, x + num_rows);
 }
 
@@ -382,6 +385,9 @@ T vertex_coloring_LDF(const I num_rows,
         vertex_coloring_first_fit(num_rows,Ap,Ap_size,Aj,Aj_size,x,x_size,K);
         K++;
     }
+
+    if(num_rows == 0)
+        return -1; // no vertices, no colors
 
     return *std::max_element(x, x + num_rows);
 }
